@@ -85,6 +85,68 @@ def out_root():
     return d
 
 
+def random_cfgs(seed, pid, k=3):
+    """k random digit counts per digit type (seeded): the quantifier says 'every N >= 1'; the fixed tables cannot, a rotating sample can"""
+    rng = random.Random(core.h64('randcfg/%d/%s' % (seed, pid)))
+    out = {}
+    for d, nmax in ((8, 1024), (16, 512), (32, 256), (64, 128)):
+        ns = set()
+        while len(ns) < k:
+            r = rng.random()
+            if r < 0.4:
+                n = rng.randrange(1, 41)
+            elif r < 0.8:
+                n = rng.randrange(41, min(nmax, 300) + 1)
+            else:
+                n = rng.randrange(min(nmax, 300), nmax + 1)
+            ns.add(n)
+        out[d] = sorted(ns)
+    return out
+
+
+def build_random_table(bins, cfgs, mode):
+    """private copy of the driver crate whose configuration table is `cfgs`; returns {bin: path}"""
+    ensure_link()
+    d = os.path.join(BUILD, 'harness-rand')
+    src = os.path.join(d, 'src')
+    os.makedirs(os.path.join(src), exist_ok=True)
+    real = os.path.join(ROOT, 'harness', 'src')
+    for f in os.listdir(real):
+        dst = os.path.join(src, f)
+        if f == 'table.rs':
+            continue
+        if not os.path.lexists(dst):
+            os.symlink(os.path.join(real, f), dst)
+    ty = {8: ('BUintD8', 'BIntD8'), 16: ('BUintD16', 'BIntD16'), 32: ('BUintD32', 'BIntD32'), 64: ('BUint', 'BInt')}
+    rows = ',\n'.join('            (u%dx%d, i%dx%d, %s<%d>, %s<%d>, u%d, %d)' % (dg, n, dg, n, ty[dg][0], n, ty[dg][1], n, dg, n) for dg in (8, 16, 32, 64) for n in cfgs[dg])
+    with open(os.path.join(ROOT, 'harness', 'src', 'table.rs')) as f:
+        t = f.read()
+    prims = t[t.index('/// The primitive twins'):]
+    body = ('//! GENERATED at run time by monitor/run.py (random-configuration pass)\n#[macro_export]\nmacro_rules! for_cfgs {\n    ($cb:ident ; $($pre:tt)*) => {\n'
+            '        $cb! { $($pre)* ;\n%s\n        }\n    };\n}\n\n%s' % (rows, prims))
+    tp = os.path.join(src, 'table.rs')
+    old = open(tp).read() if os.path.exists(tp) else None
+    if old != body:
+        with open(tp, 'w') as f:
+            f.write(body)
+    with open(os.path.join(ROOT, 'harness', 'Cargo.toml')) as f:
+        ct = f.read().replace('path = "../.build/repo"', 'path = "%s"' % repo_path())
+    with open(os.path.join(d, 'Cargo.toml'), 'w') as f:
+        f.write(ct)
+    import shutil
+    shutil.copy(os.path.join(ROOT, 'harness', 'Cargo.lock'), os.path.join(d, 'Cargo.lock'))
+    cmd = ['cargo', 'build', '--offline', '--manifest-path', os.path.join(d, 'Cargo.toml')] + (['--release'] if mode == 'rel' else [])
+    for b in bins:
+        cmd += ['--bin', b]
+    env = cargo_env()
+    env['CARGO_TARGET_DIR'] = target_dir('rand')
+    p = subprocess.run(cmd, env=env, stdout=subprocess.PIPE, stderr=subprocess.STDOUT, text=True)
+    if p.returncode != 0:
+        errs = '\n'.join([l for l in p.stdout.splitlines() if l.startswith('error')][:15])
+        raise BuildError('random-configuration build failed (%s):\n%s' % (cfgs, errs or p.stdout[-1500:]))
+    return {b: os.path.join(env['CARGO_TARGET_DIR'], 'release' if mode == 'rel' else 'debug', b) for b in bins}
+
+
 def cargo_env():
     env = dict(os.environ)
     env['CARGO_NET_OFFLINE'] = 'true'
@@ -419,6 +481,30 @@ def main(argv):
             tasks.append({'prop': pid, 'cfg': cname, 'seed': core.h64('%d/%s/%s/%d' % (seed, pid, cname, part)),
                           'part': part, 'nparts': nparts, 'tier': tier, 'bins': bins, 'n': (n + nparts - 1) // nparts,
                           'timeout': getattr(prop, 'TIMEOUT', 900)})
+    randcov = None
+    if tier == 'thorough' and not hasattr(prop, 'make_tasks') and not a.only_aux and not a.cfg and os.environ.get('VERIF_RANDCFG', '1') != '0':
+        rc = random_cfgs(seed, pid)
+        try:
+            rbins = {}
+            for mode in ('dev', 'rel'):
+                rbins[mode] = build_random_table([prop.BIN], rc, mode)[prop.BIN]
+            names = ['%s%dx%d' % (sg, d, n) for d in (8, 16, 32, 64) for n in rc[d] for sg in 'ui']
+            print('[%s] random extra configurations this run: %s' % (pid, ' '.join(n for n in names if n[0] == 'u')), flush=True)
+            for cname in names:
+                cfg = core.Cfg(cname)
+                if hasattr(prop, 'CAST_TYPES') and pid in ('C09', 'C13'):
+                    pass
+                n = max(1, int(prop.budget(cfg, 'quick') * a.scale))
+                if cfg.bits in (8, 16):
+                    n = min(n, 20000)
+                per = getattr(prop, 'TASK_REQS', 3000)
+                nparts = max(1, (n + per - 1) // per)
+                for part in range(nparts):
+                    tasks.append({'prop': pid, 'cfg': cname, 'seed': core.h64('%d/%s/%s/rand/%d' % (seed, pid, cname, part)), 'part': part, 'nparts': nparts,
+                                  'tier': 'quick', 'bins': rbins, 'n': (n + nparts - 1) // nparts, 'timeout': getattr(prop, 'TIMEOUT', 900)})
+            randcov = {'configurations': names}
+        except BuildError as e:
+            st['inconclusive'].append('random-configuration pass: %s' % str(e)[:600])
     # heavier tasks first
     tasks.sort(key=lambda t: -t.get('weight', core.Cfg(t['cfg']).bits if 'cfg' in t else 0))
     with cf.ProcessPoolExecutor(max_workers=a.jobs) as ex:
@@ -434,6 +520,8 @@ def main(argv):
             st['inconclusive'].append('auxiliary pass crashed: ' + traceback.format_exc()[-1500:])
     if a.ops:
         st['viol_list'] = [v for v in st['viol_list'] if v['op'] in a.ops.split(',')]
+    if randcov:
+        extra_cov['random_extra_configurations'] = randcov
     return finish(pid, prop, tier, seed, st, t0, extra_cov)
 
 
